@@ -262,3 +262,53 @@ func JSONSeedPackage(r *rand.Rand, pkg string) *Pkg {
 	node.Fields = append(node.Fields, fld("left", PtrT(nref)), fld("right", PtrT(nref)), fld("kids", SliceT(nref)))
 	return g.p
 }
+
+// WideFieldCounts are the numbers of applicable fields of the structs of JSONWideSeedPackage:
+// just below, at and above the tuple-arity limit (22), where gombok switches off the tuple /
+// labelled views, and well above it.
+var WideFieldCounts = []int{21, 22, 23, 30}
+
+// JSONWideSeedPackage returns the second C15 seed package: @fp.Json structs with 21, 22, 23 and
+// 30 applicable fields of mixed kinds (plain and omitempty kinds, private and public names,
+// copied json tags), so that a field dropped or defaulted anywhere — in particular behind
+// position 21 — shows in the JSON object and in the round trip.
+func JSONWideSeedPackage(r *rand.Rand, pkg string) *Pkg {
+	g := NewG(r, pkg, true)
+	kinds := []func() *Ty{
+		tInt, tStr, tBool, tF64,
+		func() *Ty { return OptionT(tInt(), false) },
+		func() *Ty { return SliceT(tStr()) },
+		func() *Ty { return PtrT(Basic("int64")) },
+		func() *Ty { return MapT(tStr(), tInt()) },
+		func() *Ty { return Basic("uint16") },
+		func() *Ty { return OptionT(tStr(), false) },
+		TimeT,
+		func() *Ty { return SeqT(tF64()) },
+		func() *Ty { return NamedBasic("MyStr", "string") },
+	}
+	for _, n := range WideFieldCounts {
+		var fs []Field
+		for i := 1; i <= n; i++ {
+			// the kind sequence is rotated per struct so that position 22.. holds plain kinds
+			// (0 / false / "" when dropped) in one struct and omitempty kinds (absent) in another
+			t := kinds[(i+n)%len(kinds)]()
+			name := fmt.Sprintf("f%d", i)
+			if i%7 == 3 {
+				name = fmt.Sprintf("F%d", i)
+			}
+			f := fld(name, t)
+			switch {
+			case i%11 == 5:
+				f.Tag = fmt.Sprintf(`json:"k%d_x"`, i)
+			case i%11 == 9:
+				f.Tag = fmt.Sprintf(`bson:"b%d" json:"k%d_y,omitempty"`, i, i)
+			}
+			fs = append(fs, f)
+			if i == n/2 {
+				fs = append(fs, fld("_skip", tStr()))
+			}
+		}
+		g.mk(fmt.Sprintf("Wide%d", n), fmt.Sprintf("limit/%d-json", n), vJ, fs...)
+	}
+	return g.p
+}
